@@ -106,7 +106,7 @@ def make_env():
     return C, Raw, Conn
 
 
-def impl_read(C, Raw, Conn, segs, comp, secret, known_ids, n, eof=True):
+def impl_read(C, Raw, Conn, segs, comp, secret, known_ids, n, eof=True, gaps=False):
     """real read_packet over a segmented stream; returns ([(id, payload|None)], remaining bytes) or ('err', name, delivered)"""
     from minecraft.networking import encryption
     reactor = C.PacketReactor(Conn(757, comp))
@@ -114,7 +114,14 @@ def impl_read(C, Raw, Conn, segs, comp, secret, known_ids, n, eof=True):
     for i in known_ids:
         table[i] = type('Raw%d' % i, (Raw,), {'id': i})
     reactor.clientbound_packets = table
-    raw = sim.SegStream(segs, eof=eof)
+    if gaps:
+        # the segments arrive one at a time: between two of them select() finds nothing to read, once
+        paused = []
+        for x in segs:
+            paused += [x, sim.GAP]
+        raw = sim.GapStream(paused[:-1], eof=eof)
+    else:
+        raw = sim.SegStream(segs, eof=eof)
     stream = raw
     if secret is not None:
         cipher = encryption.create_AES_cipher(secret)
@@ -123,6 +130,10 @@ def impl_read(C, Raw, Conn, segs, comp, secret, known_ids, n, eof=True):
     try:
         for _ in range(n):
             p = reactor.read_packet(stream, timeout=0)
+            tries = 0
+            while p is None and gaps and raw.available() and tries <= len(segs):
+                p = reactor.read_packet(stream, timeout=0)        # nothing had arrived yet: the loop asks again on its next turn
+                tries += 1
             if p is None:
                 return ('err', 'NotReady', out)
             out.append((p.id, bytes(p.data) if hasattr(p, 'data') else None))
@@ -317,7 +328,22 @@ def reader_side(chk, C, Raw, Conn, combos, rng, th):
             chk.count('reader', [thr, m, secret.hex() if secret else None, wire.hex()[:200], n, cuts[:50]], len(seq) >= 2 and len(cuts) > 0)
             chk.tally('reader:mode=%d:enc=%s:%s' % (m, secret is not None, 'bytewise' if len(cuts) == n - 1 and n > 1 else 'whole' if not cuts else 'cuts'))
             what = None
-            if got[0] != 'ok':
+            if got[0] == 'ok' and got[1] == exp and 0 < len(cuts) <= 12:
+                # the same cuts with a pause at each: the next segment has not arrived when select() is next asked
+                slow = impl_read(C, Raw, Conn, segs, comp, secret, known, len(seq), gaps=True)
+                chk.tally('reader:paused-arrival')
+                if slow != got:
+                    got = slow
+                    if got[0] == 'ok' and got[1] != exp:
+                        k = next((j for j, (a, b) in enumerate(zip(got[1], exp)) if a != b), min(len(got[1]), len(exp)))
+                        what = 'with a pause at each cut, packet %d read back as %r, written %r' % (k, got[1][k] if k < len(got[1]) else None, exp[k] if k < len(exp) else None)
+                    elif got[0] == 'ok':
+                        what = 'with a pause at each cut, %d bytes remain after the last packet (without pauses %d)' % (len(got[2]), len(tail))
+                    else:
+                        what = 'with a pause at each cut, read_packet raised %s after delivering %d of %d packets' % (got[1], len(got[2]), len(seq))
+            if what:
+                pass
+            elif got[0] != 'ok':
                 what = 'read_packet raised %s after delivering %d of %d packets' % (got[1], len(got[2]), len(seq))
             elif got[1] != exp:
                 k = next((j for j, (a, b) in enumerate(zip(got[1], exp)) if a != b), min(len(got[1]), len(exp)))
